@@ -16,6 +16,8 @@ NOT_DECIDED = ("energy/momentum conservation of the sampled kinematics, unit vec
 MODELS = ["KleinNishina", "LivermorePE", "BetheHeitler", "EPlusGG", "MollerBhabha", "SeltzerBerger",
           "RelativisticBrem", "CombinedBrem", "MuBremsstrahlung", "BetheBloch", "Rayleigh",
           "CoulombScattering", "MuBetheBloch", "Bragg", "ICRU73QO"]
+TECHNIQUE = ('null-pointer discipline (test, failure edge must-return, use dominated by non-null edge) on the CFG of every interactor; booking-dominates-reset rule')
+
 UNITS = ["src/celeritas/em/model/%sModel.cc" % m for m in MODELS] + [
     "src/celeritas/neutron/model/ChipsNeutronElasticModel.cc"]
 
